@@ -307,6 +307,154 @@ static void gen_case(Out& out, Rng& rng, uint64_t nn, int op, uint64_t rsz, uint
   run_case(out, rng, c);
 }
 
+
+// ---------------------------------------------------------------------------------------------
+// C05 at the vector level: exhaustive small boxes, every k, maximal carry chains, range variant.
+static MODULE* fake_module(uint64_t nn) {
+  MODULE* m2 = get_module(2, 0, 0);
+  MODULE* m = (MODULE*)malloc(sizeof(MODULE));
+  memcpy(m, m2, sizeof(MODULE));
+  m->nn = nn;
+  m->m = nn / 2;
+  return m;
+}
+
+// normalises `limbs` (asz limbs of nn coefficients, most significant first) into rsz limbs, optionally in place,
+// through entry point `how`: 0 = vec_znx_normalize_base2k_ref, 1 = api, 2 = big, 3 = big range (begin,end,step)
+static void norm_vec_case(Out& out, Rng& rng, MODULE* mod, uint64_t nn, uint64_t k, const std::vector<int64_t>& limbs, uint64_t asz,
+                          uint64_t rsz, int how, int inplace, uint64_t begin, uint64_t step) {
+  const uint64_t PAD = 2;
+  uint64_t asl = nn, rsl = inplace ? nn : nn + (rng.below(2) ? 0 : 3);
+  uint64_t total_limbs = (how == 3) ? begin + (asz ? (asz - 1) * step + 1 : 0) + rng.below(2) : asz;
+  uint64_t a_stride = (how == 3) ? nn : ((how == 2 || inplace) ? nn : nn + (rng.below(2) ? 0 : 2));
+  if (how != 3) asl = a_stride;
+  uint64_t aext = total_limbs ? (total_limbs - 1) * a_stride + nn : 0;
+  uint64_t rext = rsz ? (rsz - 1) * rsl + nn : 0;
+  uint64_t a_off = PAD, res_off = inplace ? a_off : a_off + aext + PAD;
+  if (inplace && how == 3) res_off = a_off + begin * nn;  // in place on the first selected limb only makes sense for step 1
+  uint64_t S = (inplace ? a_off + (aext > rext + (res_off - a_off) ? aext : rext + (res_off - a_off)) : res_off + rext) + PAD;
+  int64_t* arena = (int64_t*)malloc(S * 8 + 8);
+  for (uint64_t i = 0; i < S; i++) arena[i] = rng.sbits(62);
+  // place the limbs
+  for (uint64_t i = 0; i < asz; i++) {
+    uint64_t li = (how == 3) ? begin + i * step : i;
+    for (uint64_t j = 0; j < nn; j++) arena[a_off + li * a_stride + j] = limbs[i * nn + j];
+  }
+  uint64_t aend = (how == 3) ? begin + asz * step - (asz ? rng.below(step) : 0) : 0;  // any end with ceil((end-begin)/step) = asz
+  if (how == 3 && asz == 0) aend = begin;
+  std::vector<int64_t> before(arena, arena + S);
+  if (how == 3)
+    fprintf(out.ops, "vz range_normalize %" PRIu64 " 0 %" PRIu64 " %" PRIu64 " %" PRIu64 " %" PRIu64 " %" PRIu64 " %" PRIu64 " %" PRIu64 " %" PRIu64 " 0 0 | ",
+            nn, k, res_off, rsz, rsl, a_off, begin, aend, step);
+  else
+    fprintf(out.ops, "vz %s %" PRIu64 " 0 %" PRIu64 " %" PRIu64 " %" PRIu64 " %" PRIu64 " %" PRIu64 " %" PRIu64 " %" PRIu64 " 0 0 0 | ",
+            how == 2 ? "big_normalize" : "normalize", nn, k, res_off, rsz, rsl, a_off, asz, asl);
+  put_i64s(out.ops, arena, S);
+  uint64_t tb = nn * 8;
+  uint8_t* tmp = (uint8_t*)malloc(tb ? tb : 1);
+  for (uint64_t i = 0; i < tb; i++) tmp[i] = (uint8_t)rng.next();
+  int64_t* res = arena + res_off;
+  const int64_t* a = arena + a_off;
+  switch (how) {
+    case 0: vec_znx_normalize_base2k_ref(mod, k, res, rsz, rsl, a, asz, asl, tmp); break;
+    case 1: vec_znx_normalize_base2k(mod, k, res, rsz, rsl, a, asz, asl, tmp); break;
+    case 2: vec_znx_big_normalize_base2k(mod, k, res, rsz, rsl, (const VEC_ZNX_BIG*)a, asz, tmp); break;
+    case 3: vec_znx_big_range_normalize_base2k(mod, k, res, rsz, rsl, (const VEC_ZNX_BIG*)a, begin, aend, step, tmp); break;
+  }
+  fprintf(out.real, "1 ");
+  put_i64s(out.real, arena, S);
+  // oracle: balanced digits by floor division in 128-bit arithmetic
+  std::string verdict = "ok";
+  {
+    std::vector<int64_t> exp(before);
+    if (rsz > 0) {
+      std::vector<i128> carry(nn, 0);
+      std::vector<int64_t> dig(asz * nn, 0);
+      i128 B = (i128)1 << k, H = B >> 1;
+      for (uint64_t ii = asz; ii-- > 0;)
+        for (uint64_t j = 0; j < nn; j++) {
+          i128 v = (i128)limbs[ii * nn + j] + carry[j];
+          i128 d = (((v + H) % B) + B) % B - H;
+          carry[j] = (v - d) / B;
+          dig[ii * nn + j] = (int64_t)d;
+        }
+      for (uint64_t i = 0; i < rsz; i++)
+        for (uint64_t j = 0; j < nn; j++) exp[res_off + i * rsl + j] = (i < asz) ? dig[i * nn + j] : 0;
+    }
+    for (uint64_t i = 0; i < S; i++)
+      if (exp[i] != arena[i]) {
+        char buf[220];
+        snprintf(buf, sizeof buf, "FAIL normalize how=%d k=%" PRIu64 " rsz=%" PRIu64 " asz=%" PRIu64 " inplace=%d cell %" PRIu64 " expected %" PRId64 " got %" PRId64, how, k, rsz, asz, inplace, i, exp[i], arena[i]);
+        verdict = buf;
+        break;
+      }
+  }
+  out.endcase(verdict);
+  out.count("norm_how_" + std::to_string(how));
+  if (inplace) out.count("norm_inplace");
+  if (!rsz || !asz) out.count("norm_zero_size");
+  free(arena);
+  free(tmp);
+}
+
+STREAM(vz_norm) {
+  // 1. exhaustive boxes: every combination of limb values in [-2^(2k), 2^(2k)] laid out along the coefficient axis
+  struct Box { uint64_t k, limbs; };
+  std::vector<Box> boxes = {{1, 1}, {1, 2}, {1, 3}, {2, 1}, {2, 2}, {3, 1}, {3, 2}};
+  if (thorough) { boxes.push_back({2, 3}); boxes.push_back({4, 2}); }
+  for (auto bx : boxes) {
+    int64_t R = (int64_t)1 << (2 * bx.k);
+    uint64_t V = 2 * R + 1, nn = 1;
+    for (uint64_t i = 0; i < bx.limbs; i++) nn *= V;
+    std::vector<int64_t> limbs(bx.limbs * nn);
+    for (uint64_t j = 0; j < nn; j++) {
+      uint64_t t = j;
+      for (uint64_t i = 0; i < bx.limbs; i++) { limbs[i * nn + j] = (int64_t)(t % V) - R; t /= V; }
+    }
+    MODULE* mod = fake_module(nn);
+    for (uint64_t rsz = 0; rsz <= bx.limbs + 1; rsz++) norm_vec_case(out, rng, mod, nn, bx.k, limbs, bx.limbs, rsz, 0, 0, 0, 1);
+    norm_vec_case(out, rng, mod, nn, bx.k, limbs, bx.limbs, bx.limbs, 0, 1, 0, 1);
+    free(mod);
+    out.count("exhaustive_boxes");
+  }
+  // 2. every k: boundary magnitudes, maximal carry chains (all digits at the boundary), all entry points, sizes incl. 0
+  for (uint64_t k = 1; k <= 62; k++) {
+    if (!thorough && !(k <= 3 || k == 19 || k == 32 || k == 51 || k >= 61)) continue;
+    for (uint64_t nn : {(uint64_t)8, (uint64_t)2}) {
+      for (uint64_t asz = 0; asz <= (thorough ? 8u : 4u); asz++) {
+        std::vector<int64_t> limbs(asz * nn);
+        int64_t H = (int64_t)1 << (k - 1), M = (int64_t)1 << 62;
+        for (uint64_t j = 0; j < nn; j++)
+          for (uint64_t i = 0; i < asz; i++) {
+            int64_t v;
+            switch (j % 8) {
+              case 0: v = H - 1; break;             // all digits at the upper boundary
+              case 1: v = -H; break;                // all at the lower boundary
+              case 2: v = H; break;                 // just above: carries ripple all the way
+              case 3: v = (i % 2) ? M : -M; break;  // extremes of the contract
+              case 4: v = M - (int64_t)rng.below(4); break;
+              case 5: v = -M + (int64_t)rng.below(4); break;
+              case 6: v = rng.sbits(62); break;
+              default: v = rng.sbits((int)k + 2 > 62 ? 62 : (int)k + 2); break;
+            }
+            limbs[i * nn + j] = v;
+          }
+        MODULE* mod = get_module(nn, rng.below(2), rng.below(2));
+        for (uint64_t rsz : {(uint64_t)0, (uint64_t)1, asz, asz + 2, (asz > 1 ? asz - 1 : (uint64_t)3)}) {
+          int how = rng.below(3);
+          if (how == 2) mod = get_module(nn, 0, rng.below(2));
+          norm_vec_case(out, rng, mod, nn, k, limbs, asz, rsz, how, 0, 0, 1);
+          if (rsz > 0 || asz > 0) norm_vec_case(out, rng, mod, nn, k, limbs, asz, rsz, how == 2 ? 2 : how, 1, 0, 1);
+        }
+        // range variant: begin/step triples
+        MODULE* modf = get_module(nn, 0, rng.below(2));
+        for (uint64_t step : {(uint64_t)1, (uint64_t)2, (uint64_t)3})
+          norm_vec_case(out, rng, modf, nn, k, limbs, asz, rng.below(asz + 2), 3, 0, rng.below(3), step);
+      }
+    }
+  }
+}
+
 STREAM(vz_box) {
   std::vector<uint64_t> sizes = thorough ? std::vector<uint64_t>{0, 1, 2, 3, 5} : std::vector<uint64_t>{0, 1, 2, 3};
   std::vector<uint64_t> nns = thorough ? std::vector<uint64_t>{1, 2, 4, 8, 16, 64} : std::vector<uint64_t>{1, 2, 4, 8};
